@@ -57,19 +57,27 @@ MapProblems(r, msg, cx) ==
        IN (IF r.lk # want THEN {"map entries differ from what was sent"} ELSE {})
           \cup (IF r.fd # [i \in 1..(Len(sls) + 1) |-> i - 1] THEN {"map find() does not locate the keys"} ELSE {})
 
-Property(r, msg, cx) ==
+\* what does not depend on any deviation of the deserializer: the sender side (length and wire words of the serialization),
+\* fixed fields, map content, copies
+Content(r, msg, cx) ==
+  (IF r.mode = "rt"
+   THEN (IF r.N # SumLens(cx.ord, Len(cx.ord)) + cx.S THEN {"serialized length differs from the fields' lengths (a field was not serialized)"} ELSE {})
+        \cup (IF r.W # [i \in 1..Len(cx.dfs) |-> cx.dfs[i].n] THEN {"wire words differ from the fields' lengths"} ELSE {})
+        \cup (IF r.out = "ok" /\ r.fx # r.fxe THEN {"round trip: fixed fields differ"} ELSE {})
+        \cup (IF r.out = "ok" THEN MapProblems(r, msg, cx) ELSE {})
+   ELSE {})
+  \cup (IF r.mode # "alter" THEN CopyProblems(r) ELSE {})
+\* what the property says about the outcome and the extents handed out
+Delivery(r, cx) ==
   LET real == Real(r) IN
   IF r.mode = "rt"
-  THEN (IF r.N # SumLens(cx.ord, Len(cx.ord)) + cx.S THEN {"serialized length differs from the fields' lengths (a field was not serialized)"} ELSE {})
-       \cup (IF r.W # [i \in 1..Len(cx.dfs) |-> cx.dfs[i].n] THEN {"wire words differ from the fields' lengths"} ELSE {})
-       \cup (IF r.out # "ok" THEN {"round trip refused"}
-             ELSE {"round trip: field not delivered " \o ToString(i) : i \in RoundTripBadC(cx, real)}
-                  \cup (IF r.fx # r.fxe THEN {"round trip: fixed fields differ"} ELSE {})
-                  \cup MapProblems(r, msg, cx))
-       \cup {"not contained " \o ToString(x) : x \in HostileBadC(cx, r.W, SLof(r), r.part, real)} \cup CopyProblems(r)
+  THEN (IF r.out # "ok" THEN {"round trip refused"}
+        ELSE {"round trip: field not delivered " \o ToString(i) : i \in RoundTripBadC(cx, real)})
+       \cup {"not contained " \o ToString(x) : x \in HostileBadC(cx, r.W, SLof(r), r.part, real)}
   ELSE IF r.mode = "alter"
   THEN (IF r.ck /\ r.out = "ok" THEN {"altered byte accepted by a checked message"} ELSE {})
-  ELSE {"hostile: not contained " \o ToString(x) : x \in HostileBadC(cx, r.W, SLof(r), r.part, real)} \cup CopyProblems(r)
+  ELSE {"hostile: not contained " \o ToString(x) : x \in HostileBadC(cx, r.W, SLof(r), r.part, real)}
+Property(r, msg, cx) == Content(r, msg, cx) \cup Delivery(r, cx)
 
 \* a Fatal line (sanitizer report / signal while the real code ran or while its result was read)
 FatalExplained(r, cx, d) ==     \* only ever TRUE with a KF_ deviation enabled
@@ -83,7 +91,7 @@ Problems(r) ==
   IN IF r.e = "Fatal"
      THEN (IF Classify /\ Exact(cx, d, r) /\ FatalExplained(r, cx, d) THEN {}
            ELSE {"fatal (" \o r.asan \o ") in stage " \o r.stage \o ", field/entry " \o ToString(r.fwi) \o "; model outcome " \o d.out})
-     ELSE IF Classify THEN Transcription(r, cx, d) \cup (IF Exact(cx, d, r) THEN {} ELSE {"not exact"})
+     ELSE IF Classify THEN Transcription(r, cx, d) \cup (IF Exact(cx, d, r) THEN {} ELSE {"not exact"}) \cup Content(r, msg, cx)
      ELSE Property(r, msg, cx) \cup Transcription(r, cx, d)
 
 Init == l = 1
